@@ -8,7 +8,7 @@ use quote::ToTokens;
 use syn::spanned::Spanned;
 use syn::{Expr, Stmt};
 
-use crate::analyze::{classify_atomic_call, is_box_from_raw, is_fence_path, ordering_of, path_idents, tokens_mention_ident, BodyFacts};
+use crate::analyze::{is_box_from_raw, path_idents, tokens_mention_ident, BodyFacts};
 use crate::collect::{CfgKind, Crate};
 use crate::lower::{Lowerer, Node, Val};
 use crate::model::*;
@@ -110,22 +110,6 @@ pub(crate) fn peel_val(e: &Expr) -> &Expr {
     }
 }
 
-pub(crate) fn as_cmp(e: &Expr) -> Option<(Cmp, &Expr, &Expr)> {
-    if let Expr::Binary(b) = peel(e) {
-        let c = match b.op {
-            syn::BinOp::Eq(_) => Cmp::Eq,
-            syn::BinOp::Ne(_) => Cmp::Ne,
-            syn::BinOp::Lt(_) => Cmp::Lt,
-            syn::BinOp::Le(_) => Cmp::Le,
-            syn::BinOp::Gt(_) => Cmp::Gt,
-            syn::BinOp::Ge(_) => Cmp::Ge,
-            _ => return None,
-        };
-        return Some((c, &b.left, &b.right));
-    }
-    None
-}
-
 pub(crate) fn int_lit(e: &Expr) -> Option<u128> {
     if let Expr::Lit(l) = peel_val(e) {
         if let syn::Lit::Int(i) = &l.lit {
@@ -160,17 +144,6 @@ pub(crate) fn is_wild(p: &syn::Pat) -> bool {
     }
 }
 
-pub(crate) fn atomic_of_kind(e: &Expr, kind: Kind) -> Option<(MemOrd, usize)> {
-    if let Expr::MethodCall(m) = peel_val(strip_blocks(e)) {
-        if let Some((k, o)) = classify_atomic_call(m) {
-            if k == kind {
-                return Some((o, m.method.span().start().line));
-            }
-        }
-    }
-    None
-}
-
 pub(crate) fn macro_name(m: &syn::Macro) -> String {
     m.path.segments.last().map(|s| s.ident.to_string()).unwrap_or_default()
 }
@@ -180,13 +153,6 @@ pub(crate) fn stmt_macro(s: &Stmt) -> Option<&syn::Macro> {
         Stmt::Macro(m) => Some(&m.mac),
         Stmt::Expr(Expr::Macro(m), _) => Some(&m.mac),
         _ => None,
-    }
-}
-
-pub(crate) fn is_plain_return(stmts: &[&Stmt]) -> bool {
-    match stmts {
-        [Stmt::Expr(Expr::Return(r), _)] => r.expr.is_none(),
-        _ => false,
     }
 }
 
@@ -223,6 +189,54 @@ pub(crate) fn is_pure(e: &Expr) -> bool {
         },
         _ => false,
     }
+}
+
+/// (line, column) of the identifier that names the callee of a call expression
+fn call_pos(e: &Expr) -> Option<(usize, usize)> {
+    match peel(strip_blocks(e)) {
+        Expr::MethodCall(m) => {
+            let s = m.method.span().start();
+            Some((s.line, s.column))
+        }
+        Expr::Call(c) => {
+            if let Expr::Path(p) = &*c.func {
+                let s = p.path.segments.last()?.ident.span().start();
+                return Some((s.line, s.column));
+            }
+            None
+        }
+        _ => None,
+    }
+}
+
+/// the statement contains a `return`, a `?`, a `break`/`continue` or a macro that mentions `return`
+/// (closures and nested items are not looked into: a `return` there leaves the closure)
+fn has_early_exit(s: &Stmt) -> bool {
+    struct V(bool);
+    impl<'a> syn::visit::Visit<'a> for V {
+        fn visit_item(&mut self, _: &'a syn::Item) {}
+        fn visit_expr_closure(&mut self, _: &'a syn::ExprClosure) {}
+        fn visit_expr_return(&mut self, _: &'a syn::ExprReturn) {
+            self.0 = true;
+        }
+        fn visit_expr_try(&mut self, _: &'a syn::ExprTry) {
+            self.0 = true;
+        }
+        fn visit_expr_break(&mut self, _: &'a syn::ExprBreak) {
+            self.0 = true;
+        }
+        fn visit_expr_continue(&mut self, _: &'a syn::ExprContinue) {
+            self.0 = true;
+        }
+        fn visit_macro(&mut self, m: &'a syn::Macro) {
+            if tokens_mention_ident(m.tokens.clone(), "return") {
+                self.0 = true;
+            }
+        }
+    }
+    let mut v = V(false);
+    syn::visit::Visit::visit_stmt(&mut v, s);
+    v.0
 }
 
 /// names of all functions / methods called somewhere in an expression (macros' token idents included)
@@ -403,15 +417,16 @@ impl<'a> Analysis<'a> {
 
     // --- 2: clone / drop_inner -------------------------------------------------------------------
 
-    fn single_site_ord(&self, qname: &str, kind: Kind) -> (MemOrd, Src) {
-        let Some(f) = self.krate.unique_fn(qname) else {
-            return (MemOrd::Unknown, Src::none(&format!("{} not found (or defined more than once)", qname)));
-        };
-        let v: Vec<&Site> = self.fn_sites(f).into_iter().filter(|s| s.kind == kind && !s.debug_only).collect();
+    /// ordering of the single non-debug site of `kind` among the sites attributed to the role
+    fn role_site_ord(&self, role: &str, entries: usize, kind: Kind) -> (MemOrd, Src) {
+        if entries == 0 {
+            return (MemOrd::Unknown, Src::none(&format!("no entry point for the role {}", role)));
+        }
+        let v: Vec<&Site> = self.sites.iter().filter(|s| s.fn_ == role && s.kind == kind && !s.debug_only).collect();
         if v.len() == 1 {
             (v[0].ord, self.src_at(&v[0].file, v[0].line))
         } else {
-            (MemOrd::Unknown, Src::none(&format!("{} has {} non-debug {} sites (expected exactly one)", qname, v.len(), kind.name())))
+            (MemOrd::Unknown, Src::none(&format!("the role {} has {} non-debug {} sites (expected exactly one)", role, v.len(), kind.name())))
         }
     }
 
@@ -427,22 +442,6 @@ impl<'a> Analysis<'a> {
         } else {
             (MemOrd::Unknown, Src::none(&format!("{} reaches {} atomic loads (expected exactly one)", qname, v.len())))
         }
-    }
-
-    pub(crate) fn is_fence_expr(&self, e: &Expr) -> Option<(FenceKind, usize)> {
-        let e = peel(strip_blocks(e));
-        if let Some((o, line)) = atomic_of_kind(e, Kind::Load) {
-            return Some((FenceKind::Load(o), line));
-        }
-        if let Expr::Call(c) = e {
-            if let Expr::Path(p) = &*c.func {
-                if is_fence_path(&p.path) == Some("fence") {
-                    let o = c.args.first().map(ordering_of).unwrap_or(MemOrd::Unknown);
-                    return Some((FenceKind::Fence(o), p.path.segments.last().unwrap().ident.span().start().line));
-                }
-            }
-        }
-        None
     }
 
     /// `self.drop_slow()` (any method of self whose body does `Box::from_raw`), `Box::from_raw(..)`,
@@ -488,54 +487,35 @@ impl<'a> Analysis<'a> {
         }
     }
 
-    pub fn drop_facts(&self) -> ((Guard, Src), (Option<FenceKind>, Src), (Vec<DropStmt>, Src)) {
-        let mut front_other: Option<String> = None;
-        // the Drop impl(s) of Arc must do nothing but `self.drop_inner()`
-        let drops: Vec<usize> =
-            self.fns_named("Arc::drop").into_iter().filter(|&i| self.krate.fns[i].trait_name.as_deref() == Some("Drop")).collect();
-        if drops.is_empty() {
-            front_other = Some("no `impl Drop for Arc`".to_string());
-        }
-        for &d in &drops {
-            let st = flatten(&self.krate.fns[d].block);
-            let ok = match st.as_slice() {
-                [Stmt::Expr(e, _)] => match peel(strip_blocks(e)) {
-                    Expr::MethodCall(m) => m.method == "drop_inner" && m.args.is_empty() && single_ident(&m.receiver).as_deref() == Some("self"),
-                    Expr::Call(c) => {
-                        if let Expr::Path(p) = &*c.func {
-                            let s = path_idents(&p.path);
-                            s.len() >= 2
-                                && s[s.len() - 1] == "drop_inner"
-                                && (s[s.len() - 2] == "Self" || s[s.len() - 2] == "Arc")
-                                && c.args.len() == 1
-                                && single_ident(&c.args[0]).as_deref() == Some("self")
-                        } else {
-                            false
-                        }
-                    }
-                    _ => false,
-                },
-                _ => false,
-            };
-            if !ok {
-                let fi = &self.krate.fns[d];
-                front_other = Some(format!("{}:{} `Drop for Arc` does more than `self.drop_inner()`", fi.file, fi.line));
-            }
-        }
+    fn at_src(&self, at: &crate::lower::At) -> Src {
+        self.src_at(&at.file, at.line)
+    }
 
-        let Some(f) = self.krate.unique_fn("Arc::drop_inner") else {
-            let why = Src::none("Arc::drop_inner not found (or defined more than once)");
+    /// The decrement path: what `<Arc as Drop>::drop` does, private helpers inlined (`lower.rs`).
+    /// Every `impl Drop for Arc` (both cfg variants) must give the same classification.
+    pub fn drop_facts(&self, lw: &Lowerer) -> ((Guard, Src), (Option<FenceKind>, Src), (Vec<DropStmt>, Src)) {
+        let drops: Vec<usize> = self.roles.drop_entries.iter().copied().collect();
+        if drops.is_empty() {
+            let why = Src::none("no `impl Drop for Arc`");
             return ((Guard::UNKNOWN, why.clone()), (None, why.clone()), (vec![DropStmt::Other], why));
-        };
-        let fi = &self.krate.fns[f];
-        let mut st = DropState { an: self, f, old: None, pending_let: false, out: Vec::new(), guard: None };
-        st.classify(&flatten(&fi.block));
-        if st.pending_let {
-            st.out.push((DropStmt::Other, None, fi.line));
         }
+        let mut classes: Vec<DropCls> = Vec::new();
+        for &d in &drops {
+            let low = lw.lower_entry(d);
+            let mut c = DropCls::default();
+            c.run(&low.nodes);
+            c.finish();
+            classes.push(c);
+        }
+        let mut front_other: Option<String> = None;
+        if classes.iter().any(|c| c.key() != classes[0].key()) {
+            front_other = Some("the `impl Drop for Arc` variants do different things".to_string());
+        }
+        let st = classes.swap_remove(0);
+        let fi = &self.krate.fns[drops[0]];
 
         // collapse consecutive fences (any acquire among them is as good as one)
-        let mut seq: Vec<(DropStmt, Option<FenceKind>, usize)> = Vec::new();
+        let mut seq: Vec<(DropStmt, Option<FenceKind>, crate::lower::At)> = Vec::new();
         for it in st.out {
             if it.0 == DropStmt::Fence {
                 if let Some(last) = seq.last_mut() {
@@ -558,7 +538,7 @@ impl<'a> Analysis<'a> {
                 match it.0 {
                     DropStmt::Destroy => break,
                     DropStmt::Fence => {
-                        fence = (it.1, self.src_at(&fi.file, it.2));
+                        fence = (it.1, self.at_src(&it.2));
                         break;
                     }
                     _ => {}
@@ -566,74 +546,59 @@ impl<'a> Analysis<'a> {
             }
         }
         let mut skel: Vec<DropStmt> = seq.iter().map(|x| x.0).collect();
-        let mut skel_src = Src { file: fi.file.clone(), line: fi.line, snippet: self.krate.snippet(&fi.file, fi.line) };
+        let mut skel_src = match seq.first() {
+            Some(x) => self.at_src(&x.2),
+            None => self.src_at(&fi.file, fi.line),
+        };
         if let Some(why) = front_other {
             skel.insert(0, DropStmt::Other);
             skel_src = Src::none(&why);
         }
-        let guard = st.guard.unwrap_or((Guard::UNKNOWN, Src::none("no `if <fetch_sub result> <cmp> <lit>` found in Arc::drop_inner")));
+        let guard = match st.guard {
+            Some((g, at)) => (g, self.at_src(&at)),
+            None => (Guard::UNKNOWN, Src::none("no `if <fetch_sub result> <cmp> <lit>` on the path of `Drop for Arc`")),
+        };
         (guard, fence, (skel, skel_src))
     }
 
     // --- 3: is_unique ----------------------------------------------------------------------------
 
-    pub fn is_unique_guard(&self, loader_names: &BTreeSet<String>) -> (Guard, Src) {
+    pub fn is_unique_guard(&self, lw: &Lowerer) -> (Guard, Src) {
         let Some(f) = self.krate.unique_fn("Arc::is_unique") else {
             return (Guard::UNKNOWN, Src::none("Arc::is_unique not found (or defined more than once)"));
         };
         let fi = &self.krate.fns[f];
-        let st = flatten(&fi.block);
-        let mut lets: BTreeMap<String, &Expr> = BTreeMap::new();
-        let mut verdict: Option<&Expr> = None;
-        for (i, s) in st.iter().enumerate() {
-            match s {
-                Stmt::Local(l) => {
-                    if let (Some(id), Some(init)) = (pat_ident(&l.pat), &l.init) {
-                        lets.insert(id, &init.expr);
-                    } else {
-                        return (Guard::UNKNOWN, Src::none("unrecognised statement in Arc::is_unique"));
-                    }
-                }
-                Stmt::Expr(Expr::Return(r), _) if i + 1 == st.len() => verdict = r.expr.as_deref(),
-                Stmt::Expr(e, None) if i + 1 == st.len() => verdict = Some(e),
-                Stmt::Item(_) => {}
-                other => {
-                    if let Some(m) = stmt_macro(other) {
-                        if macro_name(m).starts_with("debug_assert") {
-                            continue;
-                        }
-                    }
-                    return (Guard::UNKNOWN, Src::none("unrecognised statement in Arc::is_unique"));
-                }
+        let low = lw.lower_entry(f);
+        for n in &low.nodes {
+            let ok = match n {
+                Node::Atomic { kind: Kind::Load, .. } => true,
+                Node::Call { loader: true, .. } => true,
+                Node::Macro { name, .. } => name.starts_with("debug_assert"),
+                _ => false,
+            };
+            if !ok {
+                return (Guard::UNKNOWN, Src::none("unrecognised statement in Arc::is_unique"));
             }
         }
-        let Some(v) = verdict else {
-            return (Guard::UNKNOWN, Src::none("Arc::is_unique has no tail expression"));
+        let line = flatten(&fi.block).last().map(|s| s.span().start().line).unwrap_or(fi.line);
+        let src = self.src_at(&fi.file, line);
+        let Val::Cmp(cmp, l, r) = &low.result else {
+            return (Guard::UNKNOWN, src);
         };
-        let line = v.span().start().line;
-        let Some((cmp, l, r)) = as_cmp(strip_blocks(v)) else {
-            return (Guard::UNKNOWN, self.src_at(&fi.file, line));
-        };
-        let reads_count = |e: &Expr| -> bool {
-            let e = match single_ident(e).and_then(|i| lets.get(&i).copied()) {
-                Some(init) => init,
-                None => e,
-            };
-            let names = call_names(e);
-            names.iter().any(|n| n == "load" || loader_names.contains(n))
-        };
-        let g = if let (Some(n), true) = (int_lit(r), reads_count(l)) {
-            Guard { cmp, lit: Some(n) }
-        } else if let (Some(n), true) = (int_lit(l), reads_count(r)) {
+        let reads = |v: &Val| matches!(v, Val::Read);
+        let lit = |v: &Val| if let Val::Lit(n) = v { Some(*n) } else { None };
+        let g = if let (Some(n), true) = (lit(r), reads(l)) {
+            Guard { cmp: *cmp, lit: Some(n) }
+        } else if let (Some(n), true) = (lit(l), reads(r)) {
             Guard { cmp: cmp.mirror(), lit: Some(n) }
-        } else if reads_count(l) {
-            Guard { cmp, lit: None }
-        } else if reads_count(r) {
+        } else if reads(l) && !reads(r) {
+            Guard { cmp: *cmp, lit: None }
+        } else if reads(r) && !reads(l) {
             Guard { cmp: cmp.mirror(), lit: None }
         } else {
             Guard::UNKNOWN
         };
-        (g, self.src_at(&fi.file, line))
+        (g, src)
     }
 
     // --- 4: gates --------------------------------------------------------------------------------
@@ -685,11 +650,66 @@ impl<'a> Analysis<'a> {
         v.hit
     }
 
+    /// Gates that are not public API are *roles*, not names:
+    ///
+    /// * `must_be_unique` — "the check that guards `Arc::write` and `Arc::as_mut_slice`";
+    /// * `Arc::try_as_unique` — "the check through which `Arc::get_unique` decides".
+    ///
+    /// If no function of that name exists, the role is played by the one helper (not an entry point of
+    /// the crate) that every one of the named callers calls directly (non-debug, resolved to exactly that
+    /// function) and that has the expected signature (returns `&mut UniqueArc` / takes an `Arc`);
+    /// failing that (the check is written out in the callers), by the callers themselves — the gate then
+    /// holds iff it holds for each of them.
+    fn private_gate_role(&self, name: &str) -> Vec<usize> {
+        let (caller_names, want_ret_unique): (&[&str], bool) = match name {
+            "must_be_unique" => (&["Arc::write", "Arc::as_mut_slice"], true),
+            "Arc::try_as_unique" => (&["Arc::get_unique"], false),
+            _ => return vec![],
+        };
+        let mut callers: Vec<usize> = Vec::new();
+        for c in caller_names {
+            let v = self.fns_named(c);
+            if v.is_empty() {
+                return vec![];
+            }
+            callers.extend(v);
+        }
+        let mut cands: BTreeSet<usize> = BTreeSet::new();
+        for (h, hi) in self.krate.fns.iter().enumerate() {
+            if hi.is_entry() {
+                continue;
+            }
+            let sig_ok = if want_ret_unique {
+                hi.ret.as_ref().map(|(t, _)| t.as_str()) == Some("UniqueArc")
+            } else {
+                hi.params.iter().any(|(_, t)| t.as_ref().map(|(n, _)| n.as_str()) == Some("Arc"))
+            };
+            if !sig_ok {
+                continue;
+            }
+            if callers.iter().all(|&c| self.bodies[c].edges.iter().any(|e| !e.debug && e.targets == [h])) {
+                cands.insert(h);
+            }
+        }
+        if cands.len() == 1 {
+            return cands.into_iter().collect();
+        }
+        callers
+    }
+
     pub fn gates(&self) -> Vec<Gate> {
         let is_unique: BTreeSet<usize> = self.fns_named("Arc::is_unique").into_iter().collect();
         let mut out = Vec::new();
         for name in GATE_NAMES {
-            let fs = self.fns_named(name);
+            let mut fs = self.fns_named(name);
+            let mut role_note = String::new();
+            if fs.is_empty() {
+                fs = self.private_gate_role(name);
+                if !fs.is_empty() {
+                    let q: Vec<String> = fs.iter().map(|&i| self.krate.fns[i].qname.clone()).collect();
+                    role_note = format!("role played by {}; ", q.join(" + "));
+                }
+            }
             if fs.is_empty() {
                 continue;
             }
@@ -701,7 +721,7 @@ impl<'a> Analysis<'a> {
             } else {
                 fs.iter().all(|&f| self.reaches_all(f, &is_unique) && !self.direct_count_comparison(f))
             };
-            let mut note = String::new();
+            let mut note = role_note;
             if *name != "Arc::is_unique" {
                 let c = self.chain(fs[0], &is_unique);
                 if !c.is_empty() {
@@ -739,56 +759,161 @@ impl<'a> Analysis<'a> {
         false
     }
 
-    /// every path through the block constructs an owning `Arc` from the raw parts and lets it drop
-    fn drops_arc_block(&self, f: usize, b: &syn::Block) -> bool {
-        b.stmts.iter().any(|s| match s {
-            Stmt::Local(l) => match &l.init {
-                Some(init) => (is_wild(&l.pat) || pat_ident(&l.pat).is_some()) && self.arc_ctor(f, &init.expr),
-                None => false,
-            },
-            Stmt::Expr(e, semi) => self.drops_arc_expr(f, e, semi.is_some()),
-            _ => false,
-        })
+    /// the helper (a function that is not an entry point) that the call expression at (line, col) of
+    /// function `f` resolves to, if it resolves to exactly one function
+    fn unique_helper_at(&self, f: usize, pos: (usize, usize)) -> Option<usize> {
+        let e = self.bodies[f].edges.iter().find(|x| x.line == pos.0 && x.col == pos.1 && !x.debug)?;
+        if e.targets.len() != 1 {
+            return None;
+        }
+        let t = e.targets[0];
+        if self.krate.fns[t].is_entry() {
+            None
+        } else {
+            Some(t)
+        }
     }
 
-    fn drops_arc_expr(&self, f: usize, e: &Expr, is_stmt: bool) -> bool {
+    /// `ManuallyDrop::new(<owning Arc from raw parts>)`, or a call of a helper whose body is pure `let`s
+    /// followed by exactly that
+    fn md_arc_expr(&self, f: usize, e: &Expr, depth: usize) -> bool {
+        let e = peel(strip_blocks(e));
+        if let Expr::Call(c) = e {
+            if let Expr::Path(p) = &*c.func {
+                let s = path_idents(&p.path);
+                if s.len() >= 2 && s[s.len() - 1] == "new" && s[s.len() - 2] == "ManuallyDrop" && c.args.len() == 1 {
+                    return self.arc_ctor(f, &c.args[0]);
+                }
+            }
+        }
+        if depth >= 3 {
+            return false;
+        }
+        if let Some(h) = call_pos(e).and_then(|p| self.unique_helper_at(f, p)) {
+            let st = flatten(&self.krate.fns[h].block);
+            if let Some((Stmt::Expr(t, None), init)) = st.split_last() {
+                let pure_lets = init.iter().all(|s| match s {
+                    Stmt::Local(l) => l.init.as_ref().map(|i| i.diverge.is_none() && is_pure(&i.expr)).unwrap_or(true),
+                    Stmt::Item(_) => true,
+                    _ => false,
+                });
+                return pure_lets && self.md_arc_expr(h, t, depth + 1);
+            }
+        }
+        false
+    }
+
+    /// Every path through the block constructs an owning `Arc` from the raw parts and lets it drop:
+    /// `let _ = E;` / `let _x = E;` / `drop(E)` / `E;` with `E` an `Arc` constructor from raw parts;
+    /// `ManuallyDrop::drop(&mut m)` with `m` a local bound to `ManuallyDrop::new(E)` (possibly through a
+    /// helper); or a call of a helper whose body does one of these.  No early exit may precede it.
+    fn drops_arc_block(&self, f: usize, b: &syn::Block, md_in: &BTreeSet<String>, depth: usize) -> bool {
+        let mut md = md_in.clone();
+        for s in &b.stmts {
+            match s {
+                Stmt::Local(l) => {
+                    if let Some(init) = &l.init {
+                        if (is_wild(&l.pat) || pat_ident(&l.pat).is_some()) && self.arc_ctor(f, &init.expr) {
+                            return true;
+                        }
+                        if let Some(id) = pat_ident(&l.pat) {
+                            if self.md_arc_expr(f, &init.expr, 0) {
+                                md.insert(id);
+                            }
+                        }
+                    }
+                }
+                Stmt::Expr(e, semi) => {
+                    if self.drops_arc_expr(f, e, semi.is_some(), &md, depth) {
+                        return true;
+                    }
+                }
+                _ => {}
+            }
+            if has_early_exit(s) {
+                return false;
+            }
+        }
+        false
+    }
+
+    fn drops_arc_expr(&self, f: usize, e: &Expr, is_stmt: bool, md: &BTreeSet<String>, depth: usize) -> bool {
+        let helper_drops = |e: &Expr| -> bool {
+            if depth >= 3 {
+                return false;
+            }
+            match call_pos(e).and_then(|p| self.unique_helper_at(f, p)) {
+                Some(h) => !self.bodies[h].has_forget && self.drops_arc_block(h, &self.krate.fns[h].block, &BTreeSet::new(), depth + 1),
+                None => false,
+            }
+        };
         match peel(e) {
-            Expr::Unsafe(u) => self.drops_arc_block(f, &u.block),
-            Expr::Block(b) => self.drops_arc_block(f, &b.block),
-            Expr::Match(m) => !m.arms.is_empty() && m.arms.iter().all(|a| self.drops_arc_expr(f, &a.body, true)),
+            Expr::Unsafe(u) => self.drops_arc_block(f, &u.block, md, depth),
+            Expr::Block(b) => self.drops_arc_block(f, &b.block, md, depth),
+            Expr::Match(m) => !m.arms.is_empty() && m.arms.iter().all(|a| self.drops_arc_expr(f, &a.body, true, md, depth)),
             Expr::If(i) => {
-                self.drops_arc_block(f, &i.then_branch)
+                self.drops_arc_block(f, &i.then_branch, md, depth)
                     && match &i.else_branch {
-                        Some((_, e)) => self.drops_arc_expr(f, e, true),
+                        Some((_, e)) => self.drops_arc_expr(f, e, true, md, depth),
                         None => false,
                     }
             }
             Expr::Call(c) => {
                 if let Expr::Path(p) = &*c.func {
-                    if path_idents(&p.path).last().map(|s| s == "drop").unwrap_or(false) && c.args.len() == 1 {
-                        return self.arc_ctor(f, &c.args[0]);
+                    let s = path_idents(&p.path);
+                    if s.last().map(|s| s == "drop").unwrap_or(false) && c.args.len() == 1 {
+                        if s.len() >= 2 && s[s.len() - 2] == "ManuallyDrop" {
+                            // `ManuallyDrop::drop(&mut m)`
+                            return match single_ident(&c.args[0]) {
+                                Some(id) => md.contains(&id),
+                                None => false,
+                            };
+                        }
+                        if s.len() == 1 || s[s.len() - 2] == "mem" {
+                            return self.arc_ctor(f, &c.args[0]);
+                        }
                     }
                 }
-                is_stmt && self.arc_ctor(f, e)
+                (is_stmt && self.arc_ctor(f, e)) || helper_drops(e)
             }
+            Expr::MethodCall(_) => helper_drops(e),
             _ => false,
         }
     }
 
+    /// `f` and the helpers reachable from it through helpers only
+    fn helper_closure(&self, f: usize) -> BTreeSet<usize> {
+        let mut seen: BTreeSet<usize> = BTreeSet::new();
+        seen.insert(f);
+        let mut todo = vec![f];
+        while let Some(x) = todo.pop() {
+            for e in &self.bodies[x].edges {
+                for &t in &e.targets {
+                    if !self.krate.fns[t].is_entry() && seen.insert(t) {
+                        todo.push(t);
+                    }
+                }
+            }
+        }
+        seen
+    }
+
     pub fn funnels(&self) -> Vec<Funnel> {
         let arc_clone: BTreeSet<usize> =
-            self.fns_named("Arc::clone").into_iter().filter(|&i| self.krate.fns[i].trait_name.as_deref() == Some("Clone")).collect();
-        let arc_drop_ok = !self.fns_named("Arc::drop").is_empty();
+            self.roles.clone_entries.clone();
+        let arc_drop_ok = !self.roles.drop_entries.is_empty();
         let mut out = Vec::new();
         for name in FUNNEL_NAMES {
             let fs = self.fns_named(name);
             if fs.is_empty() {
                 continue;
             }
-            let own: usize = fs.iter().map(|&f| self.fn_sites(f).len()).sum();
+            // sites in the body and in the helpers it reaches without leaving the crate's private part
+            let own_fns: BTreeSet<usize> = fs.iter().flat_map(|&f| self.helper_closure(f)).collect();
+            let own: usize = own_fns.iter().map(|&f| self.fn_sites(f).len()).sum();
             let drop_like = name.ends_with("::drop");
             let (reaches, note) = if drop_like {
-                let ok = arc_drop_ok && fs.iter().all(|&f| self.drops_arc_block(f, &self.krate.fns[f].block) && !self.bodies[f].has_forget);
+                let ok = arc_drop_ok && fs.iter().all(|&f| self.drops_arc_block(f, &self.krate.fns[f].block, &BTreeSet::new(), 0) && !self.bodies[f].has_forget);
                 (ok, if ok { "rebuilds the owning Arc from the raw parts and lets it drop".to_string() } else { "no dropped `Arc::from_raw*`/`protected_from_thin` value found".to_string() })
             } else {
                 let ok = fs.iter().all(|&f| self.reaches_all(f, &arc_clone));
@@ -813,7 +938,7 @@ impl<'a> Analysis<'a> {
                 if !s.kind.is_write() {
                     return false;
                 }
-                let ok = (s.fn_ == "Arc::clone" && s.kind == Kind::FetchAdd) || (s.fn_ == "Arc::drop_inner" && (s.kind == Kind::FetchSub || s.kind == Kind::Fence));
+                let ok = (s.fn_ == ROLE_CLONE && s.kind == Kind::FetchAdd) || (s.fn_ == ROLE_DROP && (s.kind == Kind::FetchSub || s.kind == Kind::Fence));
                 !ok
             })
             .cloned()
@@ -822,16 +947,16 @@ impl<'a> Analysis<'a> {
 
     pub fn atomic_facts(&self) -> AtomicFacts {
         let loaders = self.loaders();
-        let loader_names: BTreeSet<String> = loaders.iter().map(|&i| self.krate.fns[i].name.clone()).collect();
-        let (dec_guard, fence, drop_skeleton) = self.drop_facts();
+        let lw = Lowerer { an: self, loaders: &loaders };
+        let (dec_guard, fence, drop_skeleton) = self.drop_facts(&lw);
         AtomicFacts {
             sites: self.sites.clone(),
-            clone_ord: self.single_site_ord("Arc::clone", Kind::FetchAdd),
-            dec_ord: self.single_site_ord("Arc::drop_inner", Kind::FetchSub),
+            clone_ord: self.role_site_ord(ROLE_CLONE, if self.roles.clone_entries.len() == 1 { 1 } else { 0 }, Kind::FetchAdd),
+            dec_ord: self.role_site_ord(ROLE_DROP, self.roles.drop_entries.len(), Kind::FetchSub),
             dec_guard,
             fence,
             drop_skeleton,
-            is_unique_guard: self.is_unique_guard(&loader_names),
+            is_unique_guard: self.is_unique_guard(&lw),
             count_load_ord: self.load_ord_of("Arc::count"),
             strong_count_ord: self.load_ord_of("Arc::strong_count"),
             gates: self.gates(),
@@ -943,74 +1068,65 @@ impl<'a> Analysis<'a> {
         None
     }
 
-    fn clone_guard(&self) -> ((Guard, Src), (bool, Src), (GuardAction, Src)) {
+    /// The overflow guard: the first `if` at the top level of what `<Arc as Clone>::clone` does
+    /// (private helpers inlined, `lower.rs`) whose condition compares the old count or `MAX_REFCOUNT`.
+    fn clone_guard(&self, lw: &Lowerer) -> ((Guard, Src), (bool, Src), (GuardAction, Src)) {
         let none = |w: &str| ((Guard::UNKNOWN, Src::none(w)), (false, Src::none(w)), (GuardAction::Nothing, Src::none(w)));
-        let Some(f) = self.krate.unique_fn("Arc::clone") else {
-            return none("Arc::clone not found (or defined more than once)");
-        };
-        let fi = &self.krate.fns[f];
-        let st = flatten(&fi.block);
-        let mut old: Option<String> = None;
-        for s in &st {
-            match s {
-                Stmt::Local(l) => {
-                    if let Some(init) = &l.init {
-                        if atomic_of_kind(&init.expr, Kind::FetchAdd).is_some() {
-                            old = pat_ident(&l.pat);
-                        }
-                    }
-                }
-                Stmt::Expr(Expr::If(i), _) => {
-                    let Some((cmp, l, r)) = as_cmp(&i.cond) else { continue };
-                    let is_old = |e: &Expr| -> bool {
-                        let e = peel_val(e);
-                        atomic_of_kind(e, Kind::FetchAdd).is_some() || (old.is_some() && single_ident(e) == old)
-                    };
-                    let is_max = |e: &Expr| -> bool {
-                        if let Expr::Path(p) = peel_val(e) {
-                            return path_idents(&p.path).last().map(|x| x == "MAX_REFCOUNT").unwrap_or(false);
-                        }
-                        false
-                    };
-                    let involved = is_old(l) || is_old(r) || is_max(l) || is_max(r);
-                    if !involved {
-                        continue;
-                    }
-                    // orient: observed value on the left, bound on the right
-                    let (cmp, var, bound) = if is_old(l) || (is_max(r) && !is_old(r)) { (cmp, l, r) } else { (cmp.mirror(), r, l) };
-                    let line = i.if_token.span.start().line;
-                    let src = self.src_at(&fi.file, line);
-                    let guard = Guard { cmp, lit: if is_max(bound) { None } else { int_lit(bound) } };
-                    let on_old = is_old(var) && is_max(bound);
-                    // action
-                    let body = flatten(&i.then_branch);
-                    let action = if i.else_branch.is_some() {
-                        GuardAction::Unknown
-                    } else if body.is_empty() {
-                        GuardAction::Nothing
-                    } else if body.len() == 1 && matches!(body[0], Stmt::Expr(e, _) if self.abort_call(f, e) == Some(true)) {
-                        GuardAction::CallsAbort
-                    } else if body.iter().any(|s| {
-                        stmt_macro(s).map(|m| {
-                            let n = macro_name(m);
-                            PANIC_MACROS.contains(&n.as_str()) || n.starts_with("assert")
-                        }) == Some(true)
-                    }) {
-                        GuardAction::Panics
-                    } else {
-                        GuardAction::Unknown
-                    };
-                    let asrc = match body.first() {
-                        Some(s) => self.src_at(&fi.file, s.span().start().line),
-                        None => src.clone(),
-                    };
-                    return ((guard, src.clone()), (on_old, src), (action, asrc));
-                }
-                _ => {}
-            }
+        if self.roles.clone_entries.len() != 1 {
+            return none("`impl Clone for Arc` not found (or more than one)");
         }
-        none("no `if <old count> <cmp> MAX_REFCOUNT` in Arc::clone")
+        let f = *self.roles.clone_entries.iter().next().unwrap();
+        let low = lw.lower_entry(f);
+        // exactly one increment is executed on the way (a helper called twice is one *site* but two increments)
+        fn count_adds(nodes: &[Node]) -> usize {
+            nodes
+                .iter()
+                .map(|n| match n {
+                    Node::Atomic { kind: Kind::FetchAdd, .. } => 1,
+                    Node::If { then, els, .. } => count_adds(then) + count_adds(els),
+                    _ => 0,
+                })
+                .sum()
+        }
+        let adds = count_adds(&low.nodes);
+        if adds != 1 {
+            return none(&format!("{} fetch_add executions found on the path of `Clone for Arc` (expected exactly one)", adds));
+        }
+        let is_old = |v: &Val| matches!(v, Val::Old(Kind::FetchAdd));
+        let is_max = |v: &Val| matches!(v, Val::Max);
+        let lit = |v: &Val| if let Val::Lit(n) = v { Some(*n) } else { None };
+        for n in &low.nodes {
+            let Node::If { cond: Val::Cmp(cmp, l, r), then, els, at } = n else { continue };
+            let (l, r) = (&**l, &**r);
+            let involved = is_old(l) || is_old(r) || is_max(l) || is_max(r);
+            if !involved {
+                continue;
+            }
+            // orient: observed value on the left, bound on the right
+            let (cmp, var, bound) = if is_old(l) || (is_max(r) && !is_old(r)) { (*cmp, l, r) } else { (cmp.mirror(), r, l) };
+            let src = self.at_src(at);
+            let guard = Guard { cmp, lit: if is_max(bound) { None } else { lit(bound) } };
+            let on_old = is_old(var) && is_max(bound);
+            let action = if !els.is_empty() {
+                GuardAction::Unknown
+            } else if then.is_empty() {
+                GuardAction::Nothing
+            } else if then.len() == 1 && matches!(&then[0], Node::Abort { ok: true, .. }) {
+                GuardAction::CallsAbort
+            } else if then.iter().any(|n| matches!(n, Node::Macro { name, .. } if PANIC_MACROS.contains(&name.as_str()) || name.starts_with("assert"))) {
+                GuardAction::Panics
+            } else {
+                GuardAction::Unknown
+            };
+            let asrc = match then.first() {
+                Some(n) => self.at_src(node_at(n)),
+                None => src.clone(),
+            };
+            return ((guard, src.clone()), (on_old, src), (action, asrc));
+        }
+        none("no `if <old count> <cmp> MAX_REFCOUNT` at the top level of `Clone for Arc`")
     }
+
 
     fn classify_abort_fn(&self, f: usize) -> AbortImpl {
         let fi = &self.krate.fns[f];
@@ -1118,7 +1234,9 @@ impl<'a> Analysis<'a> {
     }
 
     pub fn const_facts(&self) -> ConstFacts {
-        let (clone_guard, on_old, action) = self.clone_guard();
+        let loaders = self.loaders();
+        let lw = Lowerer { an: self, loaders: &loaders };
+        let (clone_guard, on_old, action) = self.clone_guard(&lw);
         ConstFacts {
             max_refcount: self.max_refcount(),
             clone_guard,
@@ -1131,143 +1249,134 @@ impl<'a> Analysis<'a> {
 }
 
 // ------------------------------------------------------------------------------------------------
-// drop_inner statement classifier
+// classification of the lowered decrement path
 
-struct DropState<'a, 'b> {
-    an: &'b Analysis<'a>,
-    f: usize,
-    /// local bound to the result of the fetch_sub
-    old: Option<String>,
-    pending_let: bool,
-    out: Vec<(DropStmt, Option<FenceKind>, usize)>,
-    guard: Option<(Guard, Src)>,
+fn node_at(n: &Node) -> &crate::lower::At {
+    match n {
+        Node::Atomic { at, .. }
+        | Node::Fence { at, .. }
+        | Node::Destroy { at }
+        | Node::Abort { at, .. }
+        | Node::Macro { at, .. }
+        | Node::Call { at, .. }
+        | Node::If { at, .. }
+        | Node::Return { at }
+        | Node::Other { at, .. } => at,
+    }
 }
 
-impl<'a, 'b> DropState<'a, 'b> {
-    fn file(&self) -> &str {
-        &self.an.krate.fns[self.f].file
-    }
-
-    fn is_dec(&self, e: &Expr) -> bool {
-        let e = peel_val(e);
-        if atomic_of_kind(e, Kind::FetchSub).is_some() {
-            return true;
+/// `<old value of the fetch_sub> CMP <x>` in either operand order, oriented with the count on the left
+fn dec_cmp(v: &Val) -> Option<(Cmp, Option<u128>)> {
+    if let Val::Cmp(c, l, r) = v {
+        let is_dec = |x: &Val| matches!(x, Val::Old(Kind::FetchSub));
+        let lit = |x: &Val| if let Val::Lit(n) = x { Some(*n) } else { None };
+        if is_dec(l) {
+            return Some((*c, lit(r)));
         }
-        self.old.is_some() && single_ident(e) == self.old
+        if is_dec(r) {
+            return Some((c.mirror(), lit(l)));
+        }
+    }
+    None
+}
+
+#[derive(Default)]
+struct DropCls {
+    out: Vec<(DropStmt, Option<FenceKind>, crate::lower::At)>,
+    guard: Option<(Guard, crate::lower::At)>,
+    /// a fetch_sub has been seen
+    dec_seen: bool,
+    /// a fetch_sub whose result has not been compared yet
+    pending: Option<crate::lower::At>,
+}
+
+impl DropCls {
+    fn key(&self) -> (Vec<(DropStmt, Option<FenceKind>)>, Option<Guard>) {
+        (self.out.iter().map(|x| (x.0, x.1)).collect(), self.guard.as_ref().map(|g| g.0))
     }
 
-    fn classify(&mut self, stmts: &[&Stmt]) {
-        for s in stmts {
-            let line = s.span().start().line;
-            match s {
-                Stmt::Item(_) => {}
-                Stmt::Local(l) => {
-                    let Some(init) = &l.init else { continue };
-                    let e = &init.expr;
-                    if atomic_of_kind(e, Kind::FetchSub).is_some() {
-                        match pat_ident(&l.pat) {
-                            Some(id) if init.diverge.is_none() => {
-                                self.old = Some(id);
-                                self.pending_let = true;
-                            }
-                            _ => self.out.push((DropStmt::Other, None, line)),
-                        }
-                    } else if let Some((k, ln)) = self.an.is_fence_expr(e) {
-                        self.out.push((DropStmt::Fence, Some(k), ln));
-                    } else if self.an.is_destroy_expr(self.f, e) {
-                        self.out.push((DropStmt::Destroy, None, line));
-                    } else if is_pure(e) && init.diverge.is_none() {
-                        // a binding of a pure value (`let inner = self.inner();`)
-                    } else {
-                        self.out.push((DropStmt::Other, None, line));
+    fn other(&mut self, at: &crate::lower::At) {
+        self.out.push((DropStmt::Other, None, at.clone()));
+    }
+
+    fn finish(&mut self) {
+        if let Some(at) = self.pending.take() {
+            // the decrement's result is never looked at
+            self.other(&at);
+        }
+    }
+
+    fn run(&mut self, nodes: &[Node]) {
+        // the guarded continuation is *inside* the `if` (early returns are normalised away): whatever
+        // follows the `if` at this level runs for the last owner and for everybody else alike
+        let mut after_guard = false;
+        for n in nodes {
+            if after_guard {
+                match n {
+                    Node::Macro { name, reads: false, writes: false, .. } if name.starts_with("debug_assert") => {}
+                    other => {
+                        let at = node_at(other).clone();
+                        self.other(&at);
                     }
                 }
-                Stmt::Macro(m) => {
-                    let n = macro_name(&m.mac);
-                    let mentions = |names: &[&str]| names.iter().any(|a| tokens_mention_ident(m.mac.tokens.clone(), a));
-                    let writes = mentions(crate::analyze::UNMISTAKABLE) || mentions(&["store", "swap", "fence", "compiler_fence", "get_mut", "write"]);
-                    let reads = mentions(&["load", "count", "strong_count", "is_unique"]);
-                    let before_dec = !self.pending_let && !self.out.iter().any(|x| x.0 == DropStmt::DecGuard);
-                    if n.starts_with("debug_assert") && !writes && (!reads || before_dec) {
+                continue;
+            }
+            match n {
+                Node::Atomic { kind: Kind::FetchSub, stmt_level, discarded, at, .. } => {
+                    self.dec_seen = true;
+                    if *stmt_level && *discarded {
+                        self.other(at);
+                    } else {
+                        if let Some(prev) = self.pending.take() {
+                            self.other(&prev);
+                        }
+                        self.pending = Some(at.clone());
+                    }
+                }
+                Node::Atomic { kind: Kind::Load, ord, stmt_level: true, at, .. } => {
+                    self.out.push((DropStmt::Fence, Some(FenceKind::Load(*ord)), at.clone()));
+                }
+                // a load inside a condition / an argument: classified with the `if` that uses it
+                Node::Atomic { kind: Kind::Load, stmt_level: false, .. } => {}
+                Node::Atomic { at, .. } => self.other(at),
+                Node::Fence { ord, at } => self.out.push((DropStmt::Fence, Some(FenceKind::Fence(*ord)), at.clone())),
+                Node::Destroy { at } => self.out.push((DropStmt::Destroy, None, at.clone())),
+                Node::If { cond, then, els, at } => match dec_cmp(cond) {
+                    Some((cmp, lit)) => {
+                        self.pending = None;
+                        if !then.is_empty() && els.is_empty() {
+                            // `if old CMP lit { fence; destroy }`: the early exit is the negation
+                            self.record_guard(Guard { cmp: cmp.negate(), lit }, at);
+                            self.out.push((DropStmt::DecGuard, None, at.clone()));
+                            self.run(then);
+                            after_guard = true;
+                        } else if then.is_empty() && els.is_empty() {
+                            // `if old CMP lit { return; }` with nothing after it
+                            self.record_guard(Guard { cmp, lit }, at);
+                            self.out.push((DropStmt::DecGuard, None, at.clone()));
+                            after_guard = true;
+                        } else {
+                            self.other(at);
+                        }
+                    }
+                    None => self.other(at),
+                },
+                Node::Macro { name, reads, writes, at } => {
+                    if name.starts_with("debug_assert") && !*writes && (!*reads || !self.dec_seen) {
                         // compiled out in release builds; at most reads the count while the handle
                         // is still owned (before the decrement)
                     } else {
-                        self.out.push((DropStmt::Other, None, line));
+                        self.other(at);
                     }
                 }
-                Stmt::Expr(e, _) => {
-                    let e = peel(e);
-                    if let Expr::If(i) = e {
-                        self.handle_if(i, line);
-                    } else if let Some((k, ln)) = self.an.is_fence_expr(e) {
-                        self.out.push((DropStmt::Fence, Some(k), ln));
-                    } else if self.an.is_destroy_expr(self.f, e) {
-                        self.out.push((DropStmt::Destroy, None, line));
-                    } else {
-                        self.out.push((DropStmt::Other, None, line));
-                    }
-                }
+                Node::Abort { at, .. } | Node::Call { at, .. } | Node::Return { at } | Node::Other { at, .. } => self.other(at),
             }
         }
     }
 
-    fn handle_if(&mut self, i: &syn::ExprIf, line: usize) {
-        let Some((cmp, l, r)) = as_cmp(&i.cond) else {
-            self.out.push((DropStmt::Other, None, line));
-            return;
-        };
-        let (cmp, other) = if self.is_dec(l) {
-            (cmp, r)
-        } else if self.is_dec(r) {
-            (cmp.mirror(), l)
-        } else {
-            self.out.push((DropStmt::Other, None, line));
-            return;
-        };
-        self.pending_let = false;
-        let lit = int_lit(other);
-        let then_body = flatten(&i.then_branch);
-        let src = Src { file: self.file().to_string(), line, snippet: self.an.krate.snippet(self.file(), line) };
-        let else_block: Option<&syn::Block> = match &i.else_branch {
-            None => None,
-            Some((_, e)) => match &**e {
-                Expr::Block(b) => Some(&b.block),
-                _ => {
-                    self.out.push((DropStmt::Other, None, line));
-                    return;
-                }
-            },
-        };
-        if is_plain_return(&then_body) {
-            // `if old CMP lit { return; }`  [else { destroy path }]
-            self.record_guard(Guard { cmp, lit }, src);
-            self.out.push((DropStmt::DecGuard, None, line));
-            if let Some(b) = else_block {
-                let st = flatten(b);
-                self.classify(&st);
-            }
-        } else {
-            // `if old CMP lit { fence; destroy }`  [else { return; }]: the early exit is the negation
-            let else_ok = match else_block {
-                None => true,
-                Some(b) => {
-                    let st = flatten(b);
-                    st.is_empty() || is_plain_return(&st)
-                }
-            };
-            if !else_ok {
-                self.out.push((DropStmt::Other, None, line));
-                return;
-            }
-            self.record_guard(Guard { cmp: cmp.negate(), lit }, src);
-            self.out.push((DropStmt::DecGuard, None, line));
-            self.classify(&then_body);
-        }
-    }
-
-    fn record_guard(&mut self, g: Guard, src: Src) {
+    fn record_guard(&mut self, g: Guard, at: &crate::lower::At) {
         if self.guard.is_none() {
-            self.guard = Some((g, src));
+            self.guard = Some((g, at.clone()));
         }
     }
 }
